@@ -1112,22 +1112,6 @@ Definition u_debugset (a : list cval) : option tokens :=
 Definition u_unknown (a : list cval) : option tokens :=
   match a with [VS n] => Some [(true, n)] | _ => None end.
 
-Definition unparse_tokens (c : cmd) : option (list (bool * bytes)) :=
-  let '(Cmd tag a) := c in
-  match find_tag tag simple_index with
-  | Some (path, pre, tl) =>
-      Some (map (fun w => (true, w)) path
-            ++ map arg (unext_pre pre (firstn (List.length pre) a)
-                        ++ unext_tail tl (skipn (List.length pre) a)))
-  | None => unparse_custom tag a
-  end.
-Definition unparse_k (k : bytes -> bytes) (c : cmd) : option (list bytes) :=
-  match unparse_tokens c with
-  | Some ts => Some (map (fun t : bool * bytes => if fst t then k (snd t) else snd t) ts)
-  | None => None
-  end.
-Definition unparse (c : cmd) : option (list bytes) := unparse_k (fun w => w) c.
-
 (* ------------------------------------------------------------------ the Lua bridge *)
 (* redis.call / redis.pcall accept the names below and hand the argument vector to the same
    grammar; any other name is refused. *)
@@ -1400,3 +1384,21 @@ Definition canonical (c : cmd) : bool :=
       wf_pre pre (firstn (List.length pre) a) && wf_tail tl (skipn (List.length pre) a)
   | None => canonical_custom tag a
   end.
+
+(* [unparse_k k c]: the frame printed for c, keywords passed through k *)
+Definition unparse_tokens (c : cmd) : option (list (bool * bytes)) :=
+  let '(Cmd tag a) := c in
+  match find_tag tag simple_index with
+  | Some (path, pre, tl) =>
+      Some (map (fun w => (true, w)) path
+            ++ map arg (unext_pre pre (firstn (List.length pre) a)
+                        ++ unext_tail tl (skipn (List.length pre) a)))
+  | None => unparse_custom tag a
+  end.
+Definition unparse_k (k : bytes -> bytes) (c : cmd) : option (list bytes) :=
+  match unparse_tokens c with
+  | Some ts => Some (map (fun t : bool * bytes => if fst t then k (snd t) else snd t) ts)
+  | None => None
+  end.
+Definition unparse (c : cmd) : option (list bytes) := unparse_k (fun w => w) c.
+
